@@ -31,3 +31,8 @@ def run(tier, seed):
     shutil.rmtree(wd, ignore_errors=True)
     fx = build_fixture(wd, 'c19', open(os.path.join(VERIF, 'kernels', 'c19.cpp')).read())
     return execute('C19', tier, seed, cases(tier, fx), ASSUME)
+
+def cases_all(tier):
+    wd = os.path.join(BUILD, 'C19')
+    fx = build_fixture(wd, 'c19', open(os.path.join(VERIF, 'kernels', 'c19.cpp')).read())
+    return cases(tier, fx)
